@@ -249,7 +249,7 @@ func cmpDiagnostics(sa, sb []diags.Diagnostic) int {
 	slices.SortStableFunc(sa, cmpDiags)
 	slices.SortStableFunc(sb, cmpDiags)
 
-	return cmpDiags(sa[0], sb[0])
+	return slices.CompareFunc(sa, sb, cmpDiags)
 }
 
 func isSameDiagnostics(sa, sb []diags.Diagnostic) bool {
